@@ -140,6 +140,26 @@ func (c *Ctx) MineKey(key string) bool {
 	return v%c.F.NShards == c.F.Shard
 }
 
+// Unit decides which slices of item k (work unit = (item k, slice j of sub), numbered k*sub+j)
+// belong to this shard. It returns whether any does and a predicate selecting the keys of the
+// owned slices.
+func (c *Ctx) Unit(k, sub int) (mine bool, slice func(key string) bool, n int) {
+	owned := make([]bool, sub)
+	for j := 0; j < sub; j++ {
+		if (k*sub+j)%c.F.NShards == c.F.Shard {
+			owned[j] = true
+			n++
+		}
+	}
+	if n == 0 {
+		return false, nil, 0
+	}
+	return true, func(key string) bool {
+		h := sha256.Sum256([]byte(key))
+		return owned[(int(h[0])<<8|int(h[1]))%sub]
+	}, n
+}
+
 // TimeUp reports that the internal real-time deadline has passed; the harness then
 // stops enumerating, marks the run non-exhaustive and still exits 0 if nothing failed.
 func (c *Ctx) TimeUp() bool {
